@@ -3781,7 +3781,8 @@ class Output:
             self.comma_sep,
         )
         # Instance, delays and times are more rare - if unset don't include.
-        if self.inst_in or self.inst_out or self.params or self.delay or self.times != -1:
+        # A delay of -0.0 is falsy but exports as "-0", so test the exported form.
+        if self.inst_in or self.inst_out or self.params or f'{self.delay:g}' != '0' or self.times != -1:
             return (
                 *basic,
                 intern(self.inst_out) if self.inst_out is not None else None,
